@@ -88,7 +88,7 @@ pub fn upd(t: &mut Toks) -> String {
                         listeners.push((tn.to_string(), created.expect("fresh listener").evt_rx));
                     }
                     take_sent();
-                    outs.push(format!("db={} sent= note=", c11::db_dump(&a).await));
+                    outs.push(format!("db={} sent= note=", c11::db_dump_n(&a, 4).await));
                 }
                 Op::F => {
                     if listeners.is_empty() {
@@ -110,7 +110,7 @@ pub fn upd(t: &mut Toks) -> String {
                     }
                     outs.push(format!(
                         "db={} sent={} note={}{}",
-                        c11::db_dump(&a).await,
+                        c11::db_dump_n(&a, 4).await,
                         take_sent().join(";"),
                         notes.join(","),
                         if ok { "" } else { " FLUSH-TIMEOUT" }
